@@ -5,6 +5,7 @@ From Coq Require Import List NArith Bool String.
 Import ListNotations.
 From JR Require Import Conn Conn_Proofs.
 From JRGen Require Extracted.
+From JR Require Skeletons.
 Open Scope N_scope.
 
 (* closers as written in /repo: websocket waits for the loop to exit, http/custom just close their stop channel *)
@@ -57,6 +58,17 @@ Proof.
   destruct rt; eexists; reflexivity.
 Qed.
 
+(* the functions this property's model is an abstraction of still have the control / locking / shared-state skeleton the
+   model was written against (Skeletons.v, by hand; Extracted.v, regenerated from /repo) *)
+Theorem c18_code_skeletons :
+  JRGen.Extracted.effects_handleResponse = JR.Skeletons.handleResponse /\
+  JRGen.Extracted.effects_closeInFlight = JR.Skeletons.closeInFlight /\
+  JRGen.Extracted.effects_closeChans = JR.Skeletons.closeChans /\
+  JRGen.Extracted.effects_handleWsConn = JR.Skeletons.handleWsConn /\
+  JRGen.Extracted.effects_setupRequestChan = JR.Skeletons.setupRequestChan.
+Proof. repeat split; reflexivity. Qed.
+
+Print Assumptions c18_code_skeletons.
 Print Assumptions c18_source_closers.
 Print Assumptions c18_exit_needs_clean_table.
 Print Assumptions c18_inflight_returned.
